@@ -64,6 +64,37 @@ def run_case(cs):
             tr['shape_ok'] = list(g.variables['D'].shape) == \
                 [2, len(cs['nxs']), 2] and len(g.dimensions['z']) == \
                 len(cs['nxs'])
+        elif cs['kind'] == 'appnd':
+            # N-D coordinate variables: every (t, x) column has its own source
+            # and target coordinate
+            from PseudoNetCDF.core._variables import PseudoNetCDFVariable
+            cols = cs['cols']
+            n, m = len(cols[0]['xs']), len(cols[0]['nxs'])
+            f = pnc.PseudoNetCDFFile()
+            f.createDimension('t', 2)
+            f.createDimension('z', n)
+            f.createDimension('x', 2)
+            zc = f.createVariable('zc', 'd', ('t', 'z', 'x'))
+            v = f.createVariable('D', 'd', ('t', 'z', 'x'))
+            new = np.zeros((2, m, 2), 'd')
+            for q, c in enumerate(cols):
+                zc[q // 2, :, q % 2] = c['xs']
+                v[q // 2, :, q % 2] = c['d']
+                new[q // 2, :, q % 2] = c['nxs']
+            newv = PseudoNetCDFVariable(f, 'zc', 'd', ('t', 'z', 'x'),
+                                        values=new)
+            g = f.interpDimension('z', newv, coordkey='zc',
+                                  extrapolate=cs['ex'])
+            tr['cols'] = []
+            for q, c in enumerate(cols):
+                c = dict(c)
+                c['got'] = [fr(x) for x in np.asarray(
+                    g.variables['D'][q // 2, :, q % 2])]
+                c['gotz'] = [fr(x) for x in np.asarray(
+                    g.variables['zc'][q // 2, :, q % 2])]
+                tr['cols'].append(c)
+            tr['shape_ok'] = list(g.variables['D'].shape) == [2, m, 2] and \
+                len(g.dimensions['z']) == m
         elif cs['kind'] == 'sig':
             from PseudoNetCDF.cmaqfiles import ioapi_base
             nl = len(cs['F']) - 1
@@ -115,6 +146,28 @@ def run(tier):
                      'ex': c['ex'], 'lane': [rnd.randint(0, 1),
                                              rnd.randint(0, 1)],
                      'd': [rnd.randint(-20, 60) for _ in c['xs']]})
+    # columns of an N-D coordinate: grid pairs of one shape; neighbouring
+    # columns often share the source or the target coordinate
+    groups = {}
+    for c in cases:
+        if c['kind'] == 'w' and len(c['xs']) >= 2:
+            groups.setdefault((len(c['xs']), len(c['nxs']), c['ex']),
+                              []).append(c)
+    gkeys = sorted(groups)
+    for i in range(150 if tier == 'quick' else 1500):
+        gk = rnd.choice(gkeys)
+        pool_ = groups[gk]
+        cols = []
+        for q in range(4):
+            c = rnd.choice(pool_)
+            col = {'xs': c['xs'], 'nxs': c['nxs']}
+            if cols and rnd.random() < 0.5:
+                col['xs'] = cols[-1]['xs']
+            elif cols and rnd.random() < 0.3:
+                col['nxs'] = cols[-1]['nxs']
+            col['d'] = [rnd.randint(-20, 60) for _ in col['xs']]
+            cols.append(col)
+        apps.append({'kind': 'appnd', 'ex': gk[2], 'cols': cols})
     for c in [c for c in cases if c['kind'] == 'c']:
         if rnd.random() < (0.5 if tier == 'quick' else 1.0):
             apps.append({'kind': 'sig', 'F': c['F'], 'T': c['T'],
@@ -144,6 +197,7 @@ def run(tier):
     out.cov['evaluations'] = len(traces)
     out.cov['distinct_nontrivial'] = len(set(
         (t['kind'], tuple(t.get('xs', [])), tuple(t.get('nxs', [])),
+         repr(t.get('cols', [])),
          t.get('ex'), tuple(t.get('F', [])), tuple(t.get('T', [])),
          t.get('itype')) for t in traces if t['res'] == 'ok'))
     out.cov['rule'] = ('a case is one source/target grid pair (weights, '
